@@ -620,3 +620,4 @@ def run(chk, tier, only_rule=None):
     c05.r05_6(chk, tier, units=['jsonpath'], floor=80)
     c05.r05_7(chk, tier, units=['jsonpath'], floor=100)
     c05.r05_10(chk, tier, units=('jsonpath',))
+    c05.r05_14(chk, tier)
